@@ -251,6 +251,9 @@ def parse_driver(lines, results, offset):
             r.bad = rest
 
 
+SKEW = {"fired": 0}
+
+
 def run_chunk(exe, scripts, extra_args=()):
     """Run a list of scripts through harness | driver. Returns list of Res (same order)."""
     results = [Res(s) for s in scripts]
@@ -262,13 +265,14 @@ def run_chunk(exe, scripts, extra_args=()):
                            text=True, env=env)
         d = subprocess.run([DRIVER], input=h.stdout, stdout=subprocess.PIPE, stderr=subprocess.PIPE, text=True)
         parse_driver(d.stdout.splitlines(), results, start)
+        SKEW["fired"] += sum(int(x) for x in re.findall(r"@skew (\d+)", h.stderr))
         if h.returncode == 0:
             break
         # the harness died: the script being executed is the last `@script n` marker
         marks = re.findall(r"@script (\d+)", h.stderr)
         n = int(marks[-1]) if marks else 0
         bad = start + n
-        err = re.sub(r"@script \d+\n", "", h.stderr)
+        err = re.sub(r"@(script|skew) \d+\n", "", h.stderr)
         results[bad].crash = "exit=%d\n%s" % (h.returncode, err[-3000:])
         start = bad + 1
     return results
@@ -627,6 +631,8 @@ def finish(prop, tier, seed, t0, spec, audit, scripts, results, ncorpus, violati
             "rule": "scripts generated from VERIF_SEED by tools/gen.py (modes %s, kinds %s), run on the real headers; distinct = distinct op sequences; non-trivial = at least one lookup hit and at least one eviction / expiry / reaped entry / rejected insert" % (spec["modes"], spec["kinds"]),
             "traces_validated_against_impl": len([r for r in results if not r.l1 and not r.acc and not r.crash and not r.bad]),
             "corpus_scripts": ncorpus,
+            "scripts_with_lock_entry_skew": len([x for x in scripts if " skew=1" in x[0]]),
+            "lock_acquisitions_that_moved_the_clock": SKEW["fired"],
             "scripts_per_kind": perkind,
             "operation_histogram": op_histogram(scripts),
             "measured": tot,
